@@ -384,11 +384,44 @@ def run(ctx) -> None:
             recv = next(unparse(c_.value) for c_ in ast.walk(n.value) if isinstance(c_, ast.Attribute) and c_.attr == "strftime")
             prodB.setdefault(n.targets[0].id, []).append(_directive(n.value, recv))
     ctx.floor("R1", "legacy calendar fields re-derived by the reader", len(prodB), 3)
+    # ... and they are derived exactly when year, month and day are known (all three parsed or computed from the day of the year)
+    rcfg_ = cfgs.get(rd1.fq)
+    rpc_ = PathCond(rcfg_, max_atoms=24)
+    for n in rcfg_.nodes:
+        if n.kind == "stmt" and isinstance(n.ast, ast.Assign) and len(n.ast.targets) == 1 and isinstance(n.ast.targets[0], ast.Name) and n.ast.targets[0].id in want1 \
+                and any(isinstance(c_, ast.Attribute) and c_.attr == "strftime" for c_ in ast.walk(n.ast.value)):
+            live_ = n.id in rcfg_.reachable()
+            r_ = rpc_.reach(n.id).project([a_ for a_ in ("year", "month", "dom") if a_ in rpc_.atoms]) if live_ else BF.false()
+            want_r = BF.true()
+            for a_ in ("year", "month", "dom"):
+                want_r = want_r & BF.var(a_)
+            ctx.check("R1", live_ and r_.equiv(want_r), f"legacy reader: {n.ast.targets[0].id} is derived from the date exactly when year, month and day are known",
+                      f"v1version._parse_field_values: calendar field '{n.ast.targets[0].id}' is not derived from a complete date",
+                      f"`{unparse(n.ast)}` is reached when {r_.to_dnf() if live_ else 'never'}: a file pattern with {{{n.ast.targets[0].id}}} / {{doy_short}} is rendered from None", loc=rd1.loc(n.ast),
+                      witness={"version": "v2020.03.05", "file pattern": "day-of-year: {doy_short}"})
+    # the two-digit / four-digit year aliases exist only for a version that has a year
+    fvf = prog.function("v1version.format_version")
+    fcfg_ = cfgs.get(fvf.fq)
+    fpc_ = PathCond(fcfg_, max_atoms=24)
+    n_alias = 0
+    for n in fcfg_.nodes:
+        if n.kind == "stmt" and isinstance(n.ast, ast.Assign) and isinstance(n.ast.targets[0], ast.Subscript) and const_str(n.ast.targets[0].slice) in ("yy", "yyyy") and n.id in fcfg_.reachable():
+            n_alias += 1
+            r_ = fpc_.reach(n.id)
+            src_ = [a_ for a_ in r_.atoms if a_ in ("year", "vinfo.year", "year is None", "vinfo.year is None")]
+            ok_ = any((a_.endswith("is None") and r_.implies(~BF.var(a_))) or (not a_.endswith("is None") and r_.implies(BF.var(a_))) for a_ in src_)
+            ctx.check("R1", ok_, f"legacy renderer: {{{const_str(n.ast.targets[0].slice)}}} is offered only for a version that has a year",
+                      "v1version.format_version: the {yy}/{yyyy} aliases are rendered from a missing year",
+                      f"`{unparse(n.ast)}` is reached when {r_.drop_unused().to_dnf() if r_.atoms else 'always'}: for a {{semver}} version a `Copyright {{yyyy}}` file pattern is written as "
+                      "`Copyright None` instead of the update being refused", loc=fvf.loc(n.ast), witness={"version pattern": "{semver}", "file pattern": "Copyright {yyyy}"})
+    ctx.floor("R1", "year alias assignments in v1 format_version", n_alias, 2)
     for f_, d_ in want1.items():
         a_, b_ = prodA.get(f_), prodB.get(f_, [None])
         ctx.check("R1", a_ == d_ and all(x == d_ for x in b_), f"legacy field {f_}: cal_info and the reader both use %{d_} (decimal)",
                   f"v1version: calendar field '{f_}' is not read from %{d_} in base 10 by both producers",
                   f"cal_info: {a_}, reader: {b_}: a rendered {{{f_}}} does not read back to the value it was rendered from", loc=ci1.loc(), witness={"field": f_, "cal_info": a_, "reader": b_})
+    from checks.c02 import parsed_quarter_rule
+    parsed_quarter_rule(ctx, "R1", "v1version._parse_field_values")
     # the reader must not reject a value the renderer can print: no range test inside the field parser may be
     # satisfiable by a value of the field's own domain
     cal = formats.calendar_domains(prog, "v1version.cal_info", (2000, 2099))
